@@ -36,23 +36,25 @@ Fixpoint skip_zero_runs (fuel : nat) (br : fbr) (probs_rev : list Z) : res (fbr 
       if skip =? 3 then skip_zero_runs f br' probs_rev else ROk (br', probs_rev)
   end.
 
+(** one probability value: a field of [bits] or [bits - 1] bits depending on the value *)
+Definition read_value (br : fbr) (max_remaining : Z) : res (Z * fbr) :=
+  let bits_to_read := highest_bit_set max_remaining in
+  let* (unchecked, br1) := fbr_get_bits br bits_to_read in
+  let low_threshold := (2 ^ bits_to_read - 1) - max_remaining in
+  let mask := 2 ^ (bits_to_read - 1) - 1 in
+  let small := unchecked mod 2 ^ (bits_to_read - 1) in
+  if small <? low_threshold then
+    let* b := fbr_return_bits br1 1 in ROk (small, b)
+  else if mask <? unchecked then ROk (unchecked - low_threshold, br1)
+  else ROk (unchecked, br1).
+
 (** main loop of [read_probabilities]; [probs_rev] is the probability vector, last symbol first *)
 Fixpoint read_probs_loop (fuel : nat) (br : fbr) (sum counter : Z) (probs_rev : list Z) : res (fbr * Z * list Z) :=
   match fuel with
   | O => RPanic "fuel"
   | S f =>
       if counter <? sum then
-        let max_remaining := sum - counter + 1 in
-        let bits_to_read := highest_bit_set max_remaining in
-        let* (unchecked, br1) := fbr_get_bits br bits_to_read in
-        let low_threshold := (2 ^ bits_to_read - 1) - max_remaining in
-        let mask := 2 ^ (bits_to_read - 1) - 1 in
-        let small := unchecked mod 2 ^ (bits_to_read - 1) in
-        let* (value, br2) :=
-          (if small <? low_threshold then
-             let* b := fbr_return_bits br1 1 in ROk (small, b)
-           else if mask <? unchecked then ROk (unchecked - low_threshold, br1)
-           else ROk (unchecked, br1)) in
+        let* (value, br2) := read_value br (sum - counter + 1) in
         let prob := value - 1 in
         let probs_rev := prob :: probs_rev in
         if prob =? 0 then
